@@ -1,13 +1,127 @@
 /-
-  Driver/Batt — command(s) of the `batt` family (stub: filled in by the owner of the corresponding properties).
+  Driver/Batt — command `batt`: `Model/Batt.battLife` on a scripted callback stream (C18, C17 clause 3).
+
+  Certificate style: the solver parameter `solveI` is replayed from what the implementation's solver produced — a
+  table `(vo, rs, phase) ↦ current | exception class`, looked up with exact equality.  A solve the table has no
+  entry for answers the exception `no-certificate`, so a run that asks the solver anything the implementation did not
+  (another phase order, other source parameters) cannot agree with it.
+
+  in : {"cmd":"batt", "carrier":"rat"|"float",
+        "nodes":[[name, kind]…], "rails":[[component, rail]…], "battery": name,
+        "vo": num, "rs": num, "cutoff": num, "phases":[[name, num]…],
+        "probe": cb, "deplete":[cb…]            cb = {"ret":[cap, volt, rs]} | {"raise": class}
+        "solve":[[vo, rs, phase, {"i": num} | {"err": class}]…]}
+  out: {"outcome": "ok" | "exhausted" | {"raised": {"cls", "detail"}},
+        "log":[[t, cap, volt, rs]…], "calls":[[dt, i]…], "vo": num, "rs": num}
 -/
 import SysLoss.Driver.Wire
+import SysLoss.Model.Batt
 
 open Lean
 
 namespace SysLoss
+namespace Batt
+section
+variable {α : Type} [Add α] [Sub α] [Mul α] [Div α] [Neg α] [LT α] [DecidableLT α]
+  [OfNat α 0] [OfNat α 1] [OfNat α 10] [OfNat α 36] [Wire α]
+
+def errOfClass (cls : String) : Err :=
+  match cls with
+  | "ValueError(unstable)" => .unstable ""
+  | "ValueError" => .value ""
+  | "KeyError" => .key ""
+  | "TypeError" => .type ""
+  | "RuntimeError" => .runtime ""
+  | c => .other c
+
+def cbOf (j : Json) : Option (Cb α) :=
+  match j.getObjVal? "ret" with
+  | .ok (.arr #[c, v, r]) => do
+    let c ← numOf c
+    let v ← numOf v
+    let r ← numOf r
+    pure (.ret ⟨c, v, r⟩)
+  | _ =>
+    match j.getObjValAs? String "raise" with
+    | .ok cls => some (.raise (errOfClass cls))
+    | .error _ => none
+
+/-- all-or-nothing list parse -/
+def allSome {β γ : Type} (f : β → Option γ) (l : List β) : Option (List γ) :=
+  l.foldr (fun x acc => do let y ← f x; let ys ← acc; pure (y :: ys)) (some [])
+
+def pairOf (j : Json) : Option (String × String) :=
+  match j with
+  | .arr #[.str a, .str b] => some (a, b)
+  | _ => none
+
+def nodeOf (j : Json) : Option (String × Kind) :=
+  match j with
+  | .arr #[.str a, .str k] => (kindOf k).map fun k => (a, k)
+  | _ => none
+
+def phaseOf (j : Json) : Option (String × α) :=
+  match j with
+  | .arr #[.str k, v] => (numOf v).map fun x => (k, x)
+  | _ => none
+
+/-- one line of the solver certificate -/
+def solveEntryOf (j : Json) : Option (α × α × String × Except Err α) :=
+  match j with
+  | .arr #[vo, rs, .str ph, res] => do
+    let vo ← numOf vo
+    let rs ← numOf rs
+    match res.getObjVal? "i" with
+    | .ok x => do let i ← numOf x; pure (vo, rs, ph, .ok i)
+    | .error _ =>
+      match res.getObjValAs? String "err" with
+      | .ok cls => pure (vo, rs, ph, .error (errOfClass cls))
+      | .error _ => none
+  | _ => none
+
+/-- the solver replayed from the certificate -/
+def solveOfTable (tab : List (α × α × String × Except Err α)) (vo rs : α) (phase : String) : Except Err α :=
+  match tab.find? (fun e => eqB e.1 vo && eqB e.2.1 rs && e.2.2.1 == phase) with
+  | some e => e.2.2.2
+  | none => .error (.other "no-certificate")
+
+def outcomeOut (o : Outcome) : Json :=
+  match o with
+  | .ok => "ok"
+  | .exhausted => "exhausted"
+  | .raised e => Json.mkObj [("raised", errOut e)]
+
+def run (j : Json) : Json :=
+  let parsed : Option (Input α × List (α × α × String × Except Err α)) := do
+    let nodes ← allSome nodeOf (jArr j "nodes").toList
+    let rails ← allSome pairOf (jArr j "rails").toList
+    let battery ← (j.getObjValAs? String "battery").toOption
+    let vo ← (j.getObjVal? "vo").toOption >>= numOf
+    let rs ← (j.getObjVal? "rs").toOption >>= numOf
+    let cutoff ← (j.getObjVal? "cutoff").toOption >>= numOf
+    let phases ← allSome phaseOf (jArr j "phases").toList
+    let probe ← (j.getObjVal? "probe").toOption >>= cbOf
+    let deplete ← allSome cbOf (jArr j "deplete").toList
+    let tab ← allSome solveEntryOf (jArr j "solve").toList
+    pure ({ reg := ⟨nodes, rails⟩, battery, vo, rs, cutoff, phases, probe, deplete }, tab)
+  match parsed with
+  | none => Json.mkObj [("bad-op", "batt: malformed input")]
+  | some (inp, tab) =>
+    let out := battLife inp (solveOfTable tab)
+    Json.mkObj [
+      ("outcome", outcomeOut out.outcome),
+      ("log", .arr (out.log.map fun r => .arr #[Wire.out r.t, Wire.out r.cap, Wire.out r.volt, Wire.out r.rs]).toArray),
+      ("calls", .arr (out.calls.map fun c => .arr #[Wire.out c.1, Wire.out c.2]).toArray),
+      ("vo", Wire.out out.vo),
+      ("rs", Wire.out out.rs)]
+
+end
+end Batt
 
 def cmdBatt (j : Json) : Json :=
-  Json.mkObj [("bad-op", "unimplemented: " ++ jStr j "cmd")]
+  match jStr j "carrier" with
+  | "float" => Batt.run (α := Float) j
+  | "rat" => Batt.run (α := Rat) j
+  | c => Json.mkObj [("bad-op", "batt: carrier " ++ c)]
 
 end SysLoss
